@@ -265,20 +265,17 @@ class SneakyPool:
             process = self.processes[i % len(self.processes)]
             process.job_queue.put(job)
 
-        target = len(jobs)
-        count = 0
-
         exception = None
 
-        while count < target:
-            for process in self.processes:
-                if not process.queue.empty():
-                    item = process.queue.get()
-                    count += 1
-                    if isinstance(item, Exception):
-                        exception = item
-                    else:
-                        yield item
+        # Job i was given to process i % n and every process works through its
+        # queue in order, so collecting in the same round-robin order returns
+        # the results in the order of the inputs.
+        for i in range(len(jobs)):
+            item = self.processes[i % len(self.processes)].queue.get()
+            if isinstance(item, Exception):
+                exception = item
+            else:
+                yield item
 
         logger.debug("All jobs complete")
 
